@@ -299,7 +299,7 @@ def run(ctx):
     pr.start()
     STEPS[0] = StepCounter(fn)
     STEPS[0].start()
-    ctx.count("step-counter-armed", 1 if STEPS[0].on else 0)
+    ctx.count("step-counter-armed" if STEPS[0].on else "step-counter-armed:not-applicable")
     rng = ctx.rng
     try:
         def do(u, shape, cls):
